@@ -805,7 +805,18 @@ func (t *Tr) expr0(e ast.Expr) *jen.Statement {
 			return t.L(nil, "Union", t.inj([]jen.Code{t.expr(x.X), t.expr(x.Y)}))
 		}
 		t.hit("binary")
-		return t.expr(x.X).Op(x.Op.String()).Add(t.expr(x.Y))
+		// Half of the binary expressions (chosen by the operator's position, so that no PRNG stream shifts) are built
+		// flat, as a user chaining calls would: the right operand's tokens are appended to the same statement
+		// (a.Op("<").Op("-").Id("b")) instead of being added as one nested statement. Only then does jennifer see a
+		// binary operator directly followed by a unary one among the items of one statement (`a < -b` must not
+		// become `a <- b`, `a & ^b` not `a &^ b`, `a - -b` not `a --b`).
+		lhs := t.expr(x.X).Op(x.Op.String())
+		y := t.expr(x.Y)
+		if y != nil && (uint32(x.OpPos)*2654435761>>16)&1 == 0 {
+			t.hit("binary.flat")
+			return lhs.Add(*y...)
+		}
+		return lhs.Add(y)
 	case *ast.KeyValueExpr:
 		t.hit("kv")
 		return t.expr(x.Key).Op(":").Add(t.expr(x.Value))
